@@ -421,6 +421,12 @@ Mutate ==
             /\ LET other == r.live[CHOOSE j \in 1..Len(r.live) : r.live[j].id \notin {r.a, r.b, r.c}].id IN
                mut' = MutRec(d, k, "shadow-binder", "C05",
                              IF r.r \in {"+L", "&R"} THEN [r EXCEPT !.b = other] ELSE [r EXCEPT !.a = other])
+         \/ /\ r.r = "cut"     \* the new name of a cut takes the name of a live channel that the spawned body does not consume
+            /\ LET b == r.aux[1]
+                   usedb == {b.a, b.b, b.c} \cup {b.args[j] : j \in 1..Len(b.args)} IN
+               /\ \E j \in 1..Len(r.live) : r.live[j].id \notin usedb \cup {r.a}
+               /\ LET other == r.live[CHOOSE j \in 1..Len(r.live) : r.live[j].id \notin usedb \cup {r.a}].id IN
+                  mut' = MutRec(d, k, "shadow-binder", "C05", [r EXCEPT !.a = other])
          \/ /\ k = 1 /\ done[d].kind = "prc" /\ ~Contr(Md(done[d].t))   \* a second provider name duplicates a non-contractable process
             /\ mut' = MutRec(d, 0, "multi-name", "C05", [names |-> done[d].names \o <<"e">>])
          \/ /\ k = 1 /\ Hd(IF done[d].kind = "prc" THEN done[d].t ELSE done[d].sig.ret).k = "unit"   \* the provider's mode is raised above a channel it uses
